@@ -32,6 +32,15 @@
 (* that keeps a value's rank BELOW the capacity must not change the        *)
 (* decisions for it (E1 / E2 / P1 / indep are judged as before).           *)
 (*                                                                         *)
+(* SEVERAL RULES ON ONE RESOURCE, REPLACED UNDER TRAFFIC (events "mnew",    *)
+(* "mreload", "mreq"; reject mode; HotParamQpsReload.tla is the design     *)
+(* model): the rules [idx, key, T] select different arguments; a refused   *)
+(* request records which rule refused (blk = its position).  Judged per    *)
+(* rule with its OWN books: the refusing rule must not refuse a value that *)
+(* has been idle for longer than the duration FOR THAT RULE a batch within *)
+(* the rule's threshold (E3), where the rule's history after a reload is   *)
+(* the most recent of the candidates (kept books of any old rule / fresh). *)
+(*                                                                         *)
 (* Informational: the implementation-shaped layer (HotParamQpsOps part 2)  *)
 (* is run alongside; the first disagreement of a trace prints "DRIFT ..."  *)
 (* (conformance drift, never a violation).                                 *)
@@ -47,9 +56,10 @@ VARIABLES
     since, fl, lost,            \* recency rank per value (named others / fresh flood values), capacity exceeded for it
     tc, kc,                     \* implementation-shaped layer (drift only)
     g,                          \* [tr, cf, idx, key] of the running trace
+    mr, mlast,                  \* several rules: the rules in force <<[idx, key, T]>>, per rule [value -> time last charged, -1]
     failed, drifted
 
-tvars == <<l, now, first, last, adm, sched, since, fl, lost, tc, kc, g, failed, drifted>>
+tvars == <<l, now, first, last, adm, sched, since, fl, lost, tc, kc, g, mr, mlast, failed, drifted>>
 Ev == Trace[l]
 HasF(r, f) == f \in DOMAIN r
 
@@ -80,6 +90,7 @@ TNew ==
     /\ g' = [tr |-> Ev.tr, idx |-> Ev.idx, key |-> Ev.key,
              cf |-> [Ev.cf EXCEPT !.cap = EffCap(IF HasF(Ev, "pcap") THEN Ev.pcap ELSE Ev.cf.cap, Ev.cf.D, LibCapBase, LibCapMax)]]
     /\ failed' = FALSE /\ drifted' = FALSE
+    /\ UNCHANGED <<mr, mlast>>
 
 \* a request whose selected argument is v
 ReqValue(v) ==
@@ -127,7 +138,7 @@ TReq ==
             THEN /\ Judge(Ev.ok /\ Ev.wait = 0 /\ ~(HasF(Ev, "panic") /\ Ev.panic), [why |-> "noarg"])
                  /\ UNCHANGED <<first, last, adm, sched, since, fl, lost, tc, kc, drifted>>
             ELSE v \in AllVals /\ ReqValue(v)
-    /\ UNCHANGED g
+    /\ UNCHANGED <<g, mr, mlast>>
 
 \* n requests with n fresh values (one summary line)
 TFlood ==
@@ -148,7 +159,55 @@ TFlood ==
            /\ Judge(why = "ok", [why |-> why, v |-> "fresh values of a flood", thr |-> cf.T, n |-> Ev.n, admitted |-> Ev.adm,
                                  cap |-> cf.cap, impl |-> [adm |-> r.adm]])
            /\ Drift(r.adm = Ev.adm /\ Ev.wait = 0)
-    /\ UNCHANGED <<first, last, adm, sched, since, lost, g>>
+    /\ UNCHANGED <<first, last, adm, sched, since, lost, g, mr, mlast>>
+
+\* ---- several rules on one resource, replaced under traffic (design model: HotParamQpsReload.tla) --------------
+Max2(a, b) == IF a >= b THEN a ELSE b
+RECURSIVE MaxOver(_, _)
+MaxOver(ls, v) == IF ls = << >> THEN -1 ELSE Max2(Head(ls)[v], MaxOver(Tail(ls), v))
+RuleCf(r) == [g.cf EXCEPT !.T = r.T]
+SingleVars == <<first, last, adm, sched, since, fl, lost, tc, kc, drifted>>
+
+TMNew ==
+    /\ IsEvent("mnew")
+    /\ now' = 0
+    /\ Ev.cf.mode = "reject" /\ Ev.cf.cap >= 100        \* (the capacity plays no part in these traces: a handful of values)
+    /\ g' = [tr |-> Ev.tr, cf |-> Ev.cf, idx |-> 0, key |-> ""]
+    /\ mr' = Ev.rules
+    /\ mlast' = [i \in DOMAIN Ev.rules |-> [v \in AllVals |-> -1]]
+    /\ failed' = FALSE
+    /\ UNCHANGED SingleVars
+
+\* one push replaces the rule list: every new rule keeps the books of an old rule or starts fresh (not prescribed which):
+\* its history is the pointwise latest of the candidates
+TMReload ==
+    /\ IsEvent("mreload")
+    /\ Ev.t >= now /\ now' = Ev.t
+    /\ mr' = Ev.rules
+    /\ mlast' = [i \in DOMAIN Ev.rules |-> [v \in AllVals |-> MaxOver(mlast, v)]]
+    /\ Judge(Ev.loaded = Len(Ev.rules), [why |-> "reload", loaded |-> Ev.loaded])
+    /\ UNCHANGED <<g>> /\ UNCHANGED SingleVars
+
+TMReq ==
+    /\ IsEvent("mreq")
+    /\ Ev.t >= now /\ now' = Ev.t
+    /\ LET t    == Ev.t
+           vs(i) == Sel(Ev.args, Ev.atts, mr[i].idx, mr[i].key)
+           k    == Ev.blk
+           why  == IF HasF(Ev, "panic") /\ Ev.panic THEN "panic"
+                   ELSE IF Ev.wait # 0 THEN "reject-mode-wait"
+                   ELSE IF Ev.ok THEN "ok"
+                   ELSE IF k \notin DOMAIN mr THEN "unknown-rule"
+                   ELSE IF vs(k) = None THEN "noarg"
+                   ELSE IF E3Premise(RuleCf(mr[k]), vs(k), mlast[k][vs(k)], t, Ev.b) THEN "E3"
+                   ELSE "ok"
+       IN  /\ \A i \in DOMAIN mr : vs(i) = None \/ vs(i) \in AllVals
+           /\ mlast' = [i \in DOMAIN mr |-> IF vs(i) = None THEN mlast[i] ELSE [mlast[i] EXCEPT ![vs(i)] = t]]
+           /\ Judge(why = "ok", [why |-> why, rule |-> IF k \in DOMAIN mr THEN mr[k] ELSE << >>,
+                                 v |-> IF k \in DOMAIN mr THEN vs(k) ELSE None,
+                                 thr |-> IF k \in DOMAIN mr THEN mr[k].T ELSE -1,
+                                 idle |-> IF k \in DOMAIN mr /\ vs(k) # None /\ mlast[k][vs(k)] >= 0 THEN t - mlast[k][vs(k)] ELSE -1])
+    /\ UNCHANGED <<g, mr>> /\ UNCHANGED SingleVars
 
 TInit ==
     /\ l = 1 /\ now = 0
@@ -157,7 +216,8 @@ TInit ==
     /\ since = [v \in AllVals |-> {}] /\ fl = [v \in AllVals |-> 0] /\ lost = [v \in AllVals |-> FALSE]
     /\ tc = EmptyCache /\ kc = EmptyCache
     /\ g = [tr |-> 0, cf |-> << >>, idx |-> 0, key |-> ""]
+    /\ mr = << >> /\ mlast = << >>
     /\ failed = FALSE /\ drifted = FALSE
-TNext == TNew \/ TReq \/ TFlood
+TNext == TNew \/ TReq \/ TFlood \/ TMNew \/ TMReload \/ TMReq
 TSpec == TInit /\ [][TNext]_tvars
 =============================================================================
